@@ -12,7 +12,7 @@ import sys
 
 VERIF = "/verif"
 OUT = "/tmp/seed_out"
-WT = "/tmp/wt_eval"
+WT = os.environ.get("SEED_WT", "/tmp/wt_eval")
 PY = "/venv/bin/python"
 BASE = json.load(open("/root/.vp/BASELINE.json"))["stable_pass"]
 
@@ -26,11 +26,11 @@ def sh(cmd, cwd=None, timeout=900, env=None):
 
 
 def run_tests(wt):
-    rc, out = sh(f"{PY} -m pytest -q -p no:cacheprovider --timeout=900 -x --co -q tests >/dev/null 2>&1; {PY} -m pytest -q -p no:cacheprovider --timeout=900 tests --junitxml=/tmp/wt_eval_junit.xml", cwd=wt)
+    rc, out = sh(f"{PY} -m pytest -q -p no:cacheprovider --timeout=900 tests --junitxml={WT}_junit.xml", cwd=wt)
     import xml.etree.ElementTree as ET
     passed = set()
     try:
-        for tc in ET.parse("/tmp/wt_eval_junit.xml").getroot().iter("testcase"):
+        for tc in ET.parse(f"{WT}_junit.xml").getroot().iter("testcase"):
             if not list(tc):
                 passed.add(f"{tc.get('classname').split('.')[-1]}::{tc.get('name')}")
     except Exception as ex:
